@@ -10,7 +10,7 @@
    (nothing drawn), and OutOfFuel exactly when the transcription runs out of the loop/squeeze fuel.
    No Panic: every checked i32/i64 operation and every debug_assert in ExpandMask, the NTT pipeline,
    HighBits/LowBits/MakeHint, the norm checks, center_mod, sig_encode and hint_bit_pack holds.
-   Hypothesis on the model's loop budget: fuel * l < 65536 (the crate's kappa is a u16; the 9362nd
+   Hypothesis on the model's loop budget: (fuel + 1) * l <= 65535 (the crate's kappa is a u16; the 9362nd
    consecutive rejection for l = 7 would overflow it - outside anything reachable, stated, not hidden).
    The remaining theorems say the entry points pass exactly the drawn bytes and the FIPS 204 pre-hash table. *)
 Require Import List ZArith. Import ListNotations.
@@ -20,21 +20,21 @@ Require Import F204.Base.Util F204.Base.Mach F204.Gen.Params F204.Gen.Guards F20
 Require Import F204.Proofs.RealHashes.
 Open Scope Z_scope.
 
-Theorem C03_sign_is_FIPS204_Sign : forall H, HashLaws H -> forall P, In P all_params -> forall fuel, Z.of_nat fuel * lz P < 65536 ->
+Theorem C03_sign_is_FIPS204_Sign : forall H, HashLaws H -> forall P, In P all_params -> forall fuel, (Z.of_nat fuel + 1) * lz P <= 65535 ->
   forall skb sk, bytes_ok skb -> zlen skb = p_sk_len P -> sk_try_from_bytes P skb = Ok sk ->
   forall rnd g M ctx, zlen rnd = 32 ->
   try_sign_with_rng H fuel P sk (Fill rnd :: g) M ctx
     = (res_sign (Sign H fuel P skb M ctx rnd), if 255 <? zlen ctx then Fill rnd :: g else g).
 Proof. exact try_sign_refines. Qed.
 
-Theorem C03_hash_sign_is_FIPS204_HashSign : forall H, HashLaws H -> forall P, In P all_params -> forall fuel, Z.of_nat fuel * lz P < 65536 ->
+Theorem C03_hash_sign_is_FIPS204_HashSign : forall H, HashLaws H -> forall P, In P all_params -> forall fuel, (Z.of_nat fuel + 1) * lz P <= 65535 ->
   forall skb sk, bytes_ok skb -> zlen skb = p_sk_len P -> sk_try_from_bytes P skb = Ok sk ->
   forall rnd g M ctx ph, zlen rnd = 32 ->
   try_hash_sign_with_rng H fuel P sk (Fill rnd :: g) M ctx ph
     = (res_sign (HashSign H fuel P skb M ctx (VerifyRefine.ph_to_spec ph) rnd), if 255 <? zlen ctx then Fill rnd :: g else g).
 Proof. exact try_hash_sign_refines. Qed.
 
-Theorem C03_internal_sign_is_FIPS204_Sign_internal : forall H, HashLaws H -> forall P, In P all_params -> forall fuel, Z.of_nat fuel * lz P < 65536 ->
+Theorem C03_internal_sign_is_FIPS204_Sign_internal : forall H, HashLaws H -> forall P, In P all_params -> forall fuel, (Z.of_nat fuel + 1) * lz P <= 65535 ->
   forall skb sk, bytes_ok skb -> zlen skb = p_sk_len P -> sk_try_from_bytes P skb = Ok sk ->
   forall rnd M ctx, zlen ctx <= 255 ->
   internal_sign H fuel P sk M ctx rnd = res_fuel (Sign_internal H fuel P skb M rnd).
